@@ -884,5 +884,8 @@ for _p in ("C01", "C16"):
     PROPS[_p]["rules"] = PROPS[_p]["rules"] + [rules_errors.rule_failed_transfer_forgets_position]
     PROPS[_p]["explanation"] += " (POSUNKNOWN) every failing exit after a stdio transfer has reassigned the cached last_op."
 
+PROPS["C01"]["rules"] = PROPS["C01"]["rules"] + [rules_limits.rule_append_gap_filled]
+PROPS["C01"]["explanation"] += " (GAPZERO) the branch of Hwrite that extends an appendable element in place writes the gap between the old end and the write position."
+
 NOT_APPLICABLE = {}
 
